@@ -21,7 +21,7 @@ COMMON_TB = [
 ]
 
 PROPS = {}
-for _f in sorted(glob.glob(os.path.join(_HERE, "c[0-9][0-9].py"))):
+for _f in sorted(glob.glob(os.path.join(_HERE, "c[0-9][0-9]*.py"))):
     _name = os.path.basename(_f)[:-3]
     _m = importlib.import_module(_name)
     _c = dict(_m.CONFIG)
